@@ -359,6 +359,8 @@ func TestC06Owner(t *testing.T) {
 // ---------------------------------------------------------------- C07
 
 type c07Obs struct {
+	tainted map[string]bool
+	preAtt  map[int]map[string]bool
 	known      func(*kit.Viol) bool
 	preLive    map[string]*wTopicSnap
 	disagree   int
@@ -372,6 +374,32 @@ type c07Obs struct {
 func (o *c07Obs) Before(w *wWorld, op *wOp) {
 	o.pre = mem.A.Snapshot()
 	o.preLive = w.liveTopics()
+	if o.tainted == nil {
+		o.tainted = map[string]bool{}
+	}
+	for r := range o.tainted {
+		if o.preLive[r] == nil {
+			delete(o.tainted, r) // unloaded: the next load reads the store
+		}
+	}
+	o.preAtt = map[int]map[string]bool{}
+	for s, m := range o.att.att {
+		o.preAtt[s] = map[string]bool{}
+		for r := range m {
+			o.preAtt[s][r] = true
+		}
+	}
+}
+
+// noteTaint: a {set} served for a session which is not attached to the loaded topic updates the
+// store behind the cache's back (listed C08 finding); only there a cache/store disagreement is excused.
+func (o *c07Obs) noteTaint(st *wStep) {
+	if st.Op.K == "set" && !st.Skipped && st.Route != "" && !o.preAtt[st.Sess][st.Route] && o.preLive[st.Route] != nil {
+		o.tainted[st.Route] = true
+	}
+	if st.Op.K == "restart" || st.Crashed {
+		o.tainted = map[string]bool{}
+	}
 }
 
 // stale: the loaded topic's cached modes of this row differed from the stored ones before the step
@@ -390,8 +418,10 @@ func (o *c07Obs) stale(topic string, uid types.Uid, a subVal, hadA bool) bool {
 	}
 	live := hadA && !a.deleted
 	if ok != live || (ok && (pud.modeWant != a.want || pud.modeGiven != a.given)) {
-		o.disagree++
-		return true
+		if o.tainted[types.ChnToGrp(topic)] || o.tainted[topic] || (ok && pud.isChan) {
+			o.disagree++
+			return true
+		}
 	}
 	return false
 }
@@ -411,6 +441,7 @@ func topicDefault(st *mem.State, topic string, lvl auth.Level) (types.AccessMode
 
 func (o *c07Obs) After(w *wWorld, st *wStep) *kit.Viol {
 	defer o.att.update(w, st)
+	defer o.noteTaint(st)
 	post := mem.A.Snapshot()
 	pre, now := subRows(o.pre), subRows(post)
 	actor := types.ZeroUid
